@@ -67,6 +67,16 @@ CLAIMS = {
          "chain_ok) and an independent Python reader are run on the observed files after every step.",
          "Coq invariant proof by induction over histories + in-Coq evaluation of the readers on observed files",
          "6.C05"),
+ 'C08': ("kernel-checked: README content is modelled as facts (stated type, byte order, dimensions, metadata "
+         "mention; ragged: count, rank, type, first-five listing, '...', last) written by each operation "
+         "from the view the code has at that moment; the relations Rel/RRel of C03/C04 include 'README "
+         "facts = facts of the disk state', hence for every history of operations and right after every "
+         "creation the README is current (C08_array_current, C08_ragged_current: the stored facts equal "
+         "those recomputed from a freshly opened handle), also for values/ and indices/. Tie: README bytes "
+         "compared with regeneration from a fresh handle after every step, parsed facts compared with the "
+         "model's inside coqc, snippets compared with readcode().",
+         "Coq invariant proof (README facts in the simulation relation) + in-Coq differential evaluation",
+         "6.C08"),
  'C09': ("kernel-checked for every start state, number of chunks, failure position and kind, and every "
          "byte count k of a failed write: the call fails, the directory is again related to the model "
          "holding the original rows ++ the completely appended chunks, and opens (C09_failed_append; "
@@ -84,6 +94,16 @@ CLAIMS = {
          "file and OverflowError with int8/uint8 indices, run against implementation and model.",
          "Coq proof over an executable model with fault plans + in-Coq differential evaluation with kernel-enforced write failures",
          "6.C10"),
+ 'C11': ("kernel-checked over the models: in mode 'r' (a field of the state, so all ways of obtaining it "
+         "and all histories of mode switches are covered) every mutating operation -- assignment, append, "
+         "iterappend, truncate, metadata update/creation/pop/deletion, on Array (any state incl. empty first "
+         "axis) and RaggedArray (any related state incl. empty values) -- returns OSError and the world "
+         "(every file) is unchanged (C11_array_readonly, C11_ragged_readonly); after switching to 'r+' "
+         "the valid operations succeed (C11_*_rplus). Tie: full operation x kind x state x how-obtained "
+         "matrix run against implementation (byte-for-byte file snapshots) and model; delete_array / "
+         "delete_raggedarray checked on the implementation here, their model is C16's.",
+         "Coq proof over executable models + in-Coq differential evaluation over the full operation matrix",
+         "6.C11"),
  'C14': ("fit_frames and Array.iterindices are re-translated from /repo's source into Gallina on "
          "every run and five theorems (exact frame count for all integers, remainder rule, "
          "rejection of every out-of-range parameter, tiling a[start:end] when step=chunklen) are "
